@@ -31,19 +31,19 @@ def srcBranches : List BrD → Src.Branches
 (`E`: the end label of the if-block, where the block's end jump goes) -/
 structure BrOK (cx : Cx) (fuel : Nat) (E : Nat) (s : St) (env : Src.Env) (d : BrD) : Prop where
   hok : HdrsOK d.hs
-  grow : ∀ k b, Grow cx.Z b (Src.trStmts fuel [] env (toSrcStmts d.body) k b).1
+  grow : ∀ k b, Grow cx.Z b (Src.trStmts fuel cx.sm env (toSrcStmts d.body) k b).1
   pos : d.neg = false → ∃ bps tgt L, HdrsTo tgt bps d.hdrs ∧ (∀ b ∈ bps, tgt b = L) ∧ NamesOf d.hs bps ∧
-    ∀ r ib, Placed cx.cp cx.rs r ib d.PB → ∀ k b, AgreeOn cx.N cx.Z b (Src.trStmts fuel [] env (toSrcStmts d.body) k b).1 →
+    ∀ r ib, Placed cx.cp cx.rs r ib d.PB → ∀ k b, AgreeOn cx.N cx.Z b (Src.trStmts fuel cx.sm env (toSrcStmts d.body) k b).1 →
       ∀ m j, ExitsOK cx m j s env → NamedIn cx d.sB → R2 cx m j (target cx.rs (cx.cp.σ E)) k →
-        R2 cx m j (target cx.rs (cx.cp.σ L)) (Src.trStmts fuel [] env (toSrcStmts d.body) k b).2
+        R2 cx m j (target cx.rs (cx.cp.σ L)) (Src.trStmts fuel cx.sm env (toSrcStmts d.body) k b).2
   negc : d.neg = true → ∃ bps tgt eL PB', HdrsTo tgt bps d.hdrs ∧ (∀ b ∈ bps, tgt b = eL) ∧ NamesOf d.hs bps ∧
     d.PB = PB' ++ [.label eL false] ∧
-    ∀ r ib, Placed cx.cp cx.rs r ib d.PB → ∀ k b, AgreeOn cx.N cx.Z b (Src.trStmts fuel [] env (toSrcStmts d.body) k b).1 →
+    ∀ r ib, Placed cx.cp cx.rs r ib d.PB → ∀ k b, AgreeOn cx.N cx.Z b (Src.trStmts fuel cx.sm env (toSrcStmts d.body) k b).1 →
       ∀ m j, ExitsOK cx m j s env → NamedIn cx d.sB → R2 cx m j (target cx.rs (cx.cp.σ E)) k →
-        R2 cx m j ⟨r, ib⟩ (Src.trStmts fuel [] env (toSrcStmts d.body) k b).2
-  labs : ∀ r ib, Placed cx.cp cx.rs r ib d.PB → ∀ k b, AgreeOn cx.N cx.Z b (Src.trStmts fuel [] env (toSrcStmts d.body) k b).1 →
+        R2 cx m j ⟨r, ib⟩ (Src.trStmts fuel cx.sm env (toSrcStmts d.body) k b).2
+  labs : ∀ r ib, Placed cx.cp cx.rs r ib d.PB → ∀ k b, AgreeOn cx.N cx.Z b (Src.trStmts fuel cx.sm env (toSrcStmts d.body) k b).1 →
     ∀ m j, ExitsOK cx m j s env → NamedIn cx d.sB → R2 cx m j (target cx.rs (cx.cp.σ E)) k →
-      LabExport cx env m j b (Src.trStmts fuel [] env (toSrcStmts d.body) k b).1
+      LabExport cx env m j b (Src.trStmts fuel cx.sm env (toSrcStmts d.body) k b).1
 
 theorem backOf_placed {c : Copy} {rs : List (List LItem)} {r : Nat} : ∀ (brs : List BrD) (q : Nat), Placed c rs r q (backOf brs) →
     ∀ d ∈ brs, d.neg = false → ∃ ib, Placed c rs r ib d.PB := by
@@ -62,12 +62,12 @@ theorem backOf_placed {c : Copy} {rs : List (List LItem)} {r : Nat} : ∀ (brs :
 theorem chain_corr (cx : Cx) (fuel : Nat) (E : Nat) (s : St) (env : Src.Env) (he : EnvOK cx env) : ∀ (brs : List BrD),
     (∀ d ∈ brs, BrOK cx fuel E s env d) → ∀ r p, Placed cx.cp cx.rs r p (frontOf brs) →
     (∀ d ∈ brs, d.neg = false → ∃ ib, Placed cx.cp cx.rs r ib d.PB) → ∀ (k elseEntry : Nat) (b : Src.B),
-      Grow cx.Z b (Src.trBranches fuel [] env (srcBranches brs) k elseEntry b).1 ∧
-      (AgreeOn cx.N cx.Z b (Src.trBranches fuel [] env (srcBranches brs) k elseEntry b).1 → ∀ m j, ExitsOK cx m j s env →
+      Grow cx.Z b (Src.trBranches fuel cx.sm env (srcBranches brs) k elseEntry b).1 ∧
+      (AgreeOn cx.N cx.Z b (Src.trBranches fuel cx.sm env (srcBranches brs) k elseEntry b).1 → ∀ m j, ExitsOK cx m j s env →
         (∀ d ∈ brs, NamedIn cx d.sB) → R2 cx m j (target cx.rs (cx.cp.σ E)) k →
         (R2 cx m j ⟨r, p + (frontOf brs).length⟩ elseEntry →
-          R2 cx m j ⟨r, p⟩ (Src.trBranches fuel [] env (srcBranches brs) k elseEntry b).2) ∧
-        LabExport cx env m j b (Src.trBranches fuel [] env (srcBranches brs) k elseEntry b).1) := by
+          R2 cx m j ⟨r, p⟩ (Src.trBranches fuel cx.sm env (srcBranches brs) k elseEntry b).2) ∧
+        LabExport cx env m j b (Src.trBranches fuel cx.sm env (srcBranches brs) k elseEntry b).1) := by
   intro brs
   induction brs with
   | nil =>
@@ -86,11 +86,11 @@ theorem chain_corr (cx : Cx) (fuel : Nat) (E : Nat) (s : St) (env : Src.Env) (he
     simp only [srcBranches]
     rw [Src.trBranches]
     dsimp only
-    generalize Src.trBranches fuel [] env (srcBranches rest) k elseEntry b = R1 at gR cR ⊢
+    generalize Src.trBranches fuel cx.sm env (srcBranches rest) k elseEntry b = R1 at gR cR ⊢
     obtain ⟨b1, restEntry⟩ := R1
     simp only at gR cR ⊢
     have gB := hd.grow k b1
-    generalize hR2 : Src.trStmts fuel [] env (toSrcStmts d.body) k b1 = R2' at gB ⊢
+    generalize hR2 : Src.trStmts fuel cx.sm env (toSrcStmts d.body) k b1 = R2' at gB ⊢
     obtain ⟨b2, bodyEntry⟩ := R2'
     simp only at gB ⊢
     cases hneg : d.neg with
